@@ -5,7 +5,7 @@
    tied only by the implementation-side predicate of the driver (drop, re-run, SHOW CREATE again). *)
 From Coq Require Import List NArith Bool.
 Import ListNotations.
-From GMS Require Import Lang.ShowCreate Lang.ShowCreateProofs.
+From GMS Require Import Lang.ShowCreate Lang.ShowCreateProofs Lang.C22Objects.
 Open Scope N_scope.
 
 (* reading back what SHOW CREATE TABLE printed gives exactly the schema it was printed from: for EVERY
@@ -15,8 +15,9 @@ Theorem C22_parse_print_roundtrip_partial :
   forall t, wf_table t = true -> parse_table (print_table t) = Some t.
 Proof. exact parse_print. Qed.
 Print Assumptions C22_parse_print_roundtrip_partial.
-(* _partial: CHECK constraints, generated columns, expression defaults, b'..'/0x.. defaults, SPATIAL/FULLTEXT/VECTOR
-   keys, TEMPORARY and views/triggers/procedures are not in the schema AST. *)
+(* the schema AST covers CHECK constraints and generated-column / default expressions (opaque parenthesis-balanced text),
+   STORED / VIRTUAL generated columns, b'..' and 0x.. defaults and TEMPORARY.
+   _partial: SPATIAL/FULLTEXT/VECTOR keys and TARGET_ROW_SIZE are not in the AST; the expression sublanguage is opaque. *)
 
 (* hence the printed text determines the schema: two different schemas never print the same *)
 Theorem C22_print_injective_partial :
@@ -35,8 +36,8 @@ Print Assumptions C22_print_is_fixpoint_partial.
 (* 1. GenerateCreateTableIndexDefinition prints the index comment unescaped: with a quote in it the text
       cannot be read back.  Witness: KEY `k` (`c`) COMMENT 'it's'. *)
 Definition idx_comment_witness : table :=
-  mktable [116] [mkcol [99] (TyInt IInt false) true false None None []] []
-          [mkidx false [107] [([99], None)] [105; 116; 39; 115]] [] None C_utf8mb4_0900_bin [].
+  mktable false [116] [mkcol [99] (TyInt IInt false) true false None None None []] []
+          [mkidx false [107] [([99], None)] [105; 116; 39; 115]] [] [] None C_utf8mb4_0900_bin [].
 
 Theorem C22_index_comment_quote_refuted :
   exists t, parse_table (print_table t) <> Some t.
@@ -48,30 +49,79 @@ Print Assumptions C22_index_comment_quote_refuted.
 (* 2. convertColumnDefaultToString prints an ENUM default as the member index ('%v' of the converted value):
       enum('2','1') DEFAULT '2' prints DEFAULT '1'; re-read, that is member '1', which prints DEFAULT '2'. *)
 Definition enum_default_witness : table :=
-  mktable [116] [mkcol [104] (TyEnum [[50]; [49]] None) true false (Some (DQuoted [50])) None []] []
-          [] [] None C_utf8mb4_0900_bin [].
+  mktable false [116] [mkcol [104] (TyEnum [[50]; [49]] None) true false None (Some (DQuoted [50])) None []] []
+          [] [] [] None C_utf8mb4_0900_bin [].
 
 Theorem C22_enum_default_index_refuted :
   exists t t', parse_table (print_table t) = Some t' /\ str_eqb (print_table t') (print_table t) = false.
 Proof.
   exists enum_default_witness.
-  exists (mktable [116] [mkcol [104] (TyEnum [[50]; [49]] None) true false (Some (DQuoted [49])) None []] []
-          [] [] None C_utf8mb4_0900_bin []).
+  exists (mktable false [116] [mkcol [104] (TyEnum [[50]; [49]] None) true false None (Some (DQuoted [49])) None []] []
+          [] [] [] None C_utf8mb4_0900_bin []).
   split; vm_compute; reflexivity.
 Qed.
 Print Assumptions C22_enum_default_index_refuted.
 
+(* 3. with a VIRTUAL generated column SHOW CREATE TABLE prints no CHECK constraint at all (mirrored by [shown_checks]):
+      the check is lost by the round trip.  Witness: (a INT, e INT AS (a) VIRTUAL, CONSTRAINT zc CHECK (a)). *)
+Definition virtual_check_witness : table :=
+  mktable false [116]
+    [mkcol [97] (TyInt IInt false) true false None None None [];
+     mkcol [101] (TyInt IInt false) true false (Some ([96; 97; 96], false)) None None []]
+    [] [] [] [mkchk [122; 99] [96; 97; 96] true] None C_utf8mb4_0900_bin [].
+
+Theorem C22_virtual_column_hides_checks_refuted :
+  exists t t', parse_table (print_table t) = Some t' /\ tchecks t <> tchecks t'.
+Proof.
+  exists virtual_check_witness. eexists. split; [vm_compute; reflexivity|]. cbn. discriminate.
+Qed.
+Print Assumptions C22_virtual_column_hides_checks_refuted.
+
+(* ---- SHOW CREATE VIEW / TRIGGER / PROCEDURE ---- *)
+
+(* the view text printed for (name, definition) is read back to exactly that pair when the name has no backtick *)
+Theorem C22_view_roundtrip :
+  forall name text, no_backtick name = true -> parse_view (print_view name text) = Some (name, text).
+Proof. exact view_roundtrip. Qed.
+Print Assumptions C22_view_roundtrip.
+
+(* produceCreateViewStatement does not double backticks in the name: v`w cannot be read back, and o`` is read
+   back as the different name o` *)
+Theorem C22_view_name_backtick_refuted :
+  (exists name text, parse_view (print_view name text) = None) /\
+  (exists name name' text, parse_view (print_view name text) = Some (name', text) /\ str_eqb name name' = false).
+Proof.
+  split.
+  - exists [118; 96; 119], [120]. vm_compute. reflexivity.
+  - exists [111; 96; 96], [111; 96], [120]. split; vm_compute; reflexivity.
+Qed.
+Print Assumptions C22_view_name_backtick_refuted.
+
+(* triggers / procedures: the stored original statement is echoed; dropping the object and re-running the echoed
+   statement yields an object that shows the same text, for every catalog, and leaves every other object alone *)
+Theorem C22_stored_program_recreate_echo :
+  forall c n s, show_obj c n = Some s ->
+    exists c', create_obj (drop_obj c n) n s = Some c' /\ show_obj c' n = Some s /\
+               forall m, str_eqb n m = false -> show_obj c' m = show_obj c m.
+Proof. exact recreate_echo. Qed.
+Print Assumptions C22_stored_program_recreate_echo.
+
 (* non-vacuity: a well-formed schema with awkward identifiers, a collation, defaults, comments, keys and a
    foreign key; its text is read back to itself *)
 Definition sample : table :=
-  mktable [119; 96; 32; 116]
-    [mkcol [97; 32; 96] (TyInt IBig true) false true None None [105; 116; 39; 115; 10; 92];
-     mkcol [115; 101; 108; 101; 99; 116] (TyVarchar [49; 48] (Some C_utf8mb4_bin)) true false (Some (DQuoted [39; 92])) None [];
-     mkcol [100] (TyDatetime 3) true false (Some (DNow 3)) (Some 3) [];
-     mkcol [101] (TyEnum [[97; 39]; [98]] None) true false None None []]
+  mktable false [119; 96; 32; 116]
+    [mkcol [97; 32; 96] (TyInt IBig true) false true None None None [105; 116; 39; 115; 10; 92];
+     mkcol [115; 101; 108; 101; 99; 116] (TyVarchar [49; 48] (Some C_utf8mb4_bin)) true false None (Some (DQuoted [39; 92])) None [];
+     mkcol [100] (TyDatetime 3) true false None (Some (DNow 3)) (Some 3) [];
+     mkcol [101] (TyEnum [[97; 39]; [98]] None) true false None None None [];
+     mkcol [103] (TyInt IInt false) true false (Some ([40; 96; 120; 96; 32; 43; 32; 49; 41], true)) None None [118];
+     mkcol [104] (TyInt IInt false) true false None (Some (DExpr [40; 96; 120; 96; 32; 42; 32; 50; 41])) None [];
+     mkcol [105] (TyBit [53]) true false None (Some (DBit [49; 48; 49])) None [];
+     mkcol [106] (TyVarbinary [52]) true false None (Some (DHex [48; 48; 70; 70])) None []]
     [[97; 32; 96]]
     [mkidx true [107] [([115; 101; 108; 101; 99; 116], Some [53]); ([100], None)] [99]]
     [mkfk [102] [[97; 32; 96]] [112] [[105; 100]] (Some ACascade) (Some ASetNull)]
+    [mkchk [99; 107] [40; 40; 96; 120; 96; 32; 60; 32; 49; 48; 41; 32; 79; 82; 32; 40; 96; 120; 96; 32; 61; 32; 51; 41; 41] false]
     (Some [55]) C_utf8mb4_0900_bin [34; 113; 34].
 
 Example C22_nonvacuous :
